@@ -668,7 +668,7 @@ public:
   Extractor &X;
   Visitor(Extractor &X) : X(X) {}
   bool shouldVisitImplicitCode() const { return false; }
-  bool shouldVisitTemplateInstantiations() const { return false; }
+  bool shouldVisitTemplateInstantiations() const { return true; }
   bool VisitFunctionDecl(FunctionDecl *FD) { X.function(FD); return true; }
   bool VisitCXXRecordDecl(CXXRecordDecl *RD) { X.record(RD); return true; }
   bool VisitEnumDecl(EnumDecl *ED) { X.enumd(ED); return true; }
